@@ -25,6 +25,8 @@ CFG = {
     "gaps": [
         "no proof gap: all three relations and all four cardinalities are proved unconditionally for all well-formed operands (the lemma library's bitset-kernel record BKernel, Lemmas/StoreOps.lean, is inhabited by bKernel from the core library)",
         "well-formedness of the operands (needed for the two early-outs) is the producer table of C04",
+        "fidelity audit of the store kernels and 32-bit iterators (notes/fidelity-stores-iter32.md): ArrayStore::intersection_len is now the generic scalar::and run with the CardinalityCounter visitor (Arr.interLenVisit = Arr.scalarAnd Arr.cardCounter; C08_interLen_visitor, unconditional; C08_interLen_visitor_exact), executed by the compiled driver (@[csimp], C08_driver_runs_interLen_visitor); is_disjoint / is_subset (array and bitset), intersection_len_bitmap / intersection_len_array were found mirrored",
+        "fidelity audit (notes/fidelity-bitmap-core.md): is_subset is now executed as the for-loop over Pairs with its two early `return false` (Bitmap.isSubsetLoop / isSubsetMirror), is_disjoint as filter_map(zip) followed by all (Bitmap.isDisjointMirror); both unconditionally equal to the first model (isSubset_mirror_eq, isDisjoint_mirror_eq), restated as C08_is_subset_mirror / C08_is_superset_mirror / C08_is_disjoint_mirror. Pairs::next is given as a one-step state machine (Bitmap.pairsNext) of which Bitmap.pairs is proved to be the unfolding (pairs_unfold); the *_len operations and ops.rs already followed the code (operand swaps by len() / containers.len(), mem::replace threading, wrapper delegation)",
     ],
     "level_text": "Theorems (Lean 4, kernel-checked) that the model of is_subset / is_superset / is_disjoint decides the set relation on the operands' element lists and that intersection_len / union_len / difference_len / symmetric_difference_len are the cardinalities of the mathematical results (the wrapping arithmetic never wraps); the model (cmp.rs Pairs, the len short-cut, '(Bitmap, Array) => false', per-kind intersection_len) is tied to the Rust source by running both on the same generated operand pairs in two build profiles. Unbounded quantifier = theorem; tie = sampled.",
     "level_note": "Trusted: Lean kernel; the hand-written model mirrors the code (checked by correspondence on generated pairs only); Spec.lean as the meaning of the relations and cardinalities. The two early-outs are sound only for canonical (well-formed) values; well-formedness of every producer is C04's producer table.",
